@@ -10,3 +10,7 @@ import SoxrModel.Properties.C03
 #print axioms Soxr.Properties.C03.never_early_round
 #print axioms Soxr.Properties.C03.offset_marg_nonneg
 #print axioms Soxr.Properties.C03.never_early_any_phase
+#print axioms Soxr.Properties.C03.freshEng_fresh
+#print axioms Soxr.Properties.C03.never_early_round_counts
+#print axioms Soxr.Properties.C03.total_exact_every_history
+#print axioms Soxr.Properties.C03.never_early_counts
